@@ -5,7 +5,29 @@ operation had already completed), and none is silently discarded.
 
 Only what the statement speaks about is tracked: which asynchronous operations were started
 on which object (from the `C` lines), whether an intervention hit the object while they were
-outstanding, and the `H` lines."""
+outstanding, and the `H` lines.
+
+Error code of an aborted completion (`aborted_with_operation_aborted`). The statement allows any
+result for an operation that "had already completed" when the intervention came: a completion
+that is posted but has not run keeps its own result, and a refused connect parked in the 50 ms
+connect timer is delivered as refused (DESIGN.md section 6). The clause therefore demands
+`ec=aborted` only where the trace itself shows that the operation CANNOT have completed by the
+time of the intervention (cancel, cancel_one, close, close0, destroy, or a new operation of the
+same kind on a socket / acceptor):
+  timer wait        the clock at the intervention (bounded above by the next time the trace shows)
+                    is before the expiry (bounded below by the last time shown before the arming)
+  resolve           a host name of the scenario's dns table with latency L, requested at t: the
+                    clock at the intervention is before t + L
+  accept (3 forms)  started on a listening acceptor, and no connect to its port was ever called
+  UDP recv / recv_noep / wait_read
+                    started on an open, bound socket, and no send_to to its port (and no inject)
+                    was ever called
+  TCP read / wait_read
+                    on a socket whose connection is established (its connect / accept completed
+                    with success; the operation may have been parked during the handshake), and so
+                    far no other TCP socket has written, closed, been destroyed or re-opened
+Connects, writes and UDP wait-for-write are left to the model comparison: when they complete
+depends on queue state that no property statement fixes."""
 import re
 
 def _kv(tk):
@@ -22,48 +44,169 @@ ASYNC = {
     "recv": ("recv", 0), "recv_noep": ("recv", 0), "wait_write": ("send", 0), "resolve": ("resolve", 2),
 }
 KILL = {"cancel", "cancel_one", "close", "close0", "destroy"}
+INF = float("inf")
 
-def check(impl, scn=None):
+def _port(ep):
+    try: return int(ep.rsplit(":", 1)[1])
+    except (IndexError, ValueError): return None
+
+def _is_literal(name):
+    return bool(re.match(r"[0-9.]+$", name)) or ":" in name or name == "-"
+
+def _dns_latency(scn):
+    """host name -> smallest latency any dns line gives it"""
+    out = {}
+    for ln in (scn or "").split("\n"):
+        tk = ln.split()
+        if len(tk) >= 2 and tk[0] == "dns":
+            try: lat = int(_kv(tk[2:]).get("lat", "x"))
+            except ValueError: continue
+            out[tk[1]] = min(lat, out.get(tk[1], lat))
+    return out
+
+def _times(impl):
+    """lo[i] = last clock value shown at or before line i, hi[i] = first one shown at or after it"""
+    n = len(impl); at = [None] * n
+    for i, ln in enumerate(impl):
+        if ln[:2] in ("H ", "K ", "R ", "Q "):
+            for t in ln.split():
+                if t.startswith("t="):
+                    try: at[i] = int(t[2:])
+                    except ValueError: pass
+                    break
+    lo = [0] * n; hi = [INF] * n; cur = 0
+    for i in range(n):
+        if at[i] is not None: cur = at[i]
+        lo[i] = cur
+    cur = INF
+    for i in range(n - 1, -1, -1):
+        if at[i] is not None: cur = at[i]
+        hi[i] = cur
+    return lo, hi
+
+def check(impl, scn=None, skip_objs=None, clauses=None, stats=None):
+    """skip_objs: objects whose handlers are not judged (C12 judges only the objects an intervention
+    did not touch); clauses: restrict to these clause names; stats: dict that receives
+    (operation, intervention) -> number of completions the error-code clause made a demand on"""
+    try:
+        fails = _check(impl, scn, stats)
+    except Exception as e:        # a monitor must never take the check down
+        import traceback
+        return [("monitor_error", "specs/handlers.py raised %r: %s" % (e, traceback.format_exc()[-300:]))]
+    out = []
+    for clause, detail, obj in fails:
+        if skip_objs is not None and obj in skip_objs: continue
+        if clauses is not None and clause not in clauses: continue
+        out.append((clause, detail))
+    return out
+
+def _check(impl, scn, stats=None):
     fails = []
     started = {}       # h -> dict(obj, kind, pos, hit=False)
     done = {}          # h -> (ec, pos)
     live_ops = {}      # obj -> {kind: [h,…]} operations not yet seen completing
     stopped = False; returned_quiescent = False; crashed = False
+    # --- what the error-code clause needs
+    lo, hi = _times(impl)
+    dns = _dns_latency(scn)
+    expiry = {}        # timer -> lower bound of its expiry
+    listening = {}     # acceptor -> True after a successful listen
+    aport = {}         # acceptor -> bound port
+    uopen = {}; uport = {}      # UDP socket -> open / bound port (None = bound, port unknown)
+    connects = []      # ports connect was called with
+    sendtos = []       # ports send_to was called with
+    injected = False; foreign = False; thrown = False
+    est = {}           # TCP socket -> established
+    epoch = {}         # TCP socket -> number of the connection it is on
+    tcp_noise = {}     # TCP socket -> number of write/close/destroy/open calls so far
+    conn_h = {}        # connect / accept handler -> socket it establishes
+    def noise_by_others(s):
+        return sum(v for o, v in tcp_noise.items() if o != s)
+
+    def must_abort(h, m):
+        """the operation of handler h cannot have completed at the current line (an intervention `m` on its object)"""
+        st = started[h]; kind = st["kind"]; obj = st["obj"]; op = st["op"]
+        if thrown or foreign or injected: return None      # traffic no C line shows, or a run() left by an exception
+        if kind == "wait" and obj[0] == "t":
+            e = st.get("expiry")
+            if e is not None and hi[idx] < e:
+                return "the clock was at most %s, before the expiry %d" % (hi[idx], e)
+        elif kind == "resolve":
+            due = st.get("due")
+            if due is not None and hi[idx] < due:
+                return "the clock was at most %s, the lookup (requested at >= %d) takes %d ns" % (hi[idx], st["t0"], due - st["t0"])
+        elif kind == "accept":
+            if st.get("cand") and listening.get(obj):
+                p = aport.get(obj)
+                if not any(c is None or p is None or c == p for c in connects):
+                    return "no connect to port %s had been called" % p
+        elif kind == "recv" and obj[0] == "u":
+            if st.get("cand") and uopen.get(obj) and obj in uport:
+                p = uport[obj]
+                if not any(c is None or p is None or c == p for c in sendtos):
+                    return "no datagram had been sent to port %s" % p
+        elif kind == "recv" and obj[0] == "s" and op in ("read", "wait_read"):
+            if est.get(obj) and st.get("epoch") == epoch.get(obj, 0) and noise_by_others(obj) == 0:
+                return "the connection was established and no other TCP socket had written or closed"
+        return None
+
     pos = 0
-    for ln in impl:
+    for idx, ln in enumerate(impl):
         pos += 1
         tk = ln.split()
         if not tk: continue
         if tk[0] == "X": crashed = True
         if tk[0] == "H":
             h = tk[1]; d = _kv(tk[2:])
-            if h in started and d.get("incall") == "1":
-                fails.append(("never_inline", "%s invoked from inside an initiating call" % h))
-            if h in done:
-                fails.append(("at_most_once", "%s invoked twice" % h))
-            done[h] = (d.get("ec"), pos)
             st = started.get(h)
+            obj = st["obj"] if st else None
+            if h in started and d.get("incall") == "1":
+                fails.append(("never_inline", "%s invoked from inside an initiating call" % h, obj))
+            if h in done:
+                fails.append(("at_most_once", "%s invoked twice" % h, obj))
+            elif st and st.get("why") and d.get("ec") != "aborted":
+                fails.append(("aborted_with_operation_aborted", "%s (%s on %s) was outstanding at `%s` and cannot have completed by then (%s), yet it was invoked with ec=%s"
+                              % (h, st["op"], st["obj"], st["by"], st["why"], d.get("ec")), obj))
+            done[h] = (d.get("ec"), pos)
             if st:
                 ops = live_ops.get(st["obj"], {}).get(st["kind"], [])
                 if h in ops: ops.remove(h)
+            if h in conn_h:
+                s = conn_h.pop(h)
+                if d.get("ec") == "ok": est[s] = True
             continue
         if tk[0] == "C" and "=>" in tk:
             i = tk.index("=>"); op = tk[2:i]; res = " ".join(tk[i + 1:])
             if not op: continue
             if op[0] == "stop": stopped = True
             if op[0] == "restart": stopped = False
+            if op[0] == "inject": injected = True
             if "." not in op[0] or res == "skipped" or res == "bad-op": continue
             obj, m = op[0].split(".", 1)
+            if obj[:1] not in "tsaur": foreign = True      # servers produce traffic no C line shows
+            r0 = res.split()[0] if res else ""
+            hit_now = []
             if m in ASYNC:
-                kind, hi = ASYNC[m]
-                if len(op) > 1 + hi and re.match(r"h\d+$", op[1 + hi]):
-                    h = op[1 + hi]
+                kind, hi_ = ASYNC[m]
+                if len(op) > 1 + hi_ and re.match(r"h\d+$", op[1 + hi_]):
+                    h = op[1 + hi_]
                     # a new operation of the same kind supersedes the outstanding one (sockets, acceptors)
                     if obj[0] in "sau" and kind in ("recv", "send", "accept"):
                         for old in live_ops.get(obj, {}).get(kind, []):
+                            if not started[old]["hit"]: hit_now.append(old)
                             started[old]["hit"] = True
-                    started[h] = dict(obj=obj, kind=kind, pos=pos, hit=False)
+                    st = dict(obj=obj, kind=kind, pos=pos, hit=False, op=m)
+                    # evidence, at the start, for "cannot complete before …"
+                    if kind == "wait": st["expiry"] = expiry.get(obj)
+                    elif kind == "resolve" and len(op) > 1 and op[1] in dns and not _is_literal(op[1]):
+                        st["t0"] = lo[idx]; st["due"] = lo[idx] + dns[op[1]]
+                    elif kind == "accept": st["cand"] = bool(listening.get(obj))
+                    elif kind == "recv" and obj[0] == "u": st["cand"] = bool(uopen.get(obj)) and obj in uport
+                    elif kind == "recv" and obj[0] == "s": st["epoch"] = epoch.get(obj, 0)
+                    started[h] = st
                     live_ops.setdefault(obj, {}).setdefault(kind, []).append(h)
+                    if m == "connect": conn_h[h] = obj
+                    elif m in ("accept", "accept_ep", "accept_new") and len(op) > 1: conn_h[h] = op[1]
             if m in KILL or m in ("expires_at", "expires_after", "open", "send_to"):
                 kinds = None
                 if m in ("expires_at", "expires_after"): kinds = ["wait"]
@@ -71,18 +214,69 @@ def check(impl, scn=None):
                 if m in ("cancel", "cancel_one") and obj[0] == "a": kinds = ["accept"]
                 for kind, hs in live_ops.get(obj, {}).items():
                     if kinds is None or kind in kinds:
-                        for h in hs: started[h]["hit"] = True
+                        for h in hs:
+                            if m in KILL and not started[h]["hit"]: hit_now.append(h)
+                            started[h]["hit"] = True
+            # the first intervention that hits an outstanding operation decides whether it must be aborted
+            for h in hit_now:
+                if h in done or started[h].get("why"): continue
+                why = must_abort(h, m)
+                if why:
+                    started[h]["why"] = why; started[h]["by"] = " ".join(tk[1:i])
+                    if stats is not None:
+                        key = (obj[0] + "." + started[h]["op"], m); stats[key] = stats.get(key, 0) + 1
             if m == "move" and len(op) > 1:
                 # the operations move with the object (only legal without outstanding operations)
                 live_ops[op[1]] = live_ops.pop(obj, {})
                 for kind, hs in live_ops[op[1]].items():
                     for h in hs: started[h]["obj"] = op[1]
+            # --- reference state for the error-code clause (after the hits were judged)
+            k0 = obj[0]
+            if k0 == "t":
+                if m == "expires_after" and len(op) > 1:
+                    try: expiry[obj] = lo[idx] + int(op[1])
+                    except ValueError: expiry.pop(obj, None)
+                elif m == "expires_at" and len(op) > 1:
+                    try: expiry[obj] = int(op[1])
+                    except ValueError: expiry.pop(obj, None)
+                elif m in ("new", "destroy"): expiry.pop(obj, None)
+            elif k0 == "a":
+                if m == "listen": listening[obj] = (r0 == "ok")
+                elif m == "bind" and r0 == "ok": aport[obj] = _port(_kv(res.split()).get("local", ""))
+                elif m in ("close", "close0", "destroy", "open", "new"):
+                    listening[obj] = False; aport.pop(obj, None)
+            elif k0 == "u":
+                if m == "open": uopen[obj] = (r0 == "ok"); uport.pop(obj, None)
+                elif m == "bind" and r0 == "ok": uport[obj] = _port(_kv(res.split()).get("local", ""))
+                elif m in ("close", "destroy", "new"): uopen[obj] = False; uport.pop(obj, None)
+                elif m == "send_to":
+                    sendtos.append(_port(op[1]) if len(op) > 1 else None)
+                    if uopen.get(obj) and obj not in uport: uport[obj] = None      # implicit bind
+                elif m == "move" and len(op) > 1:
+                    uopen[op[1]] = uopen.pop(obj, False)
+                    if obj in uport: uport[op[1]] = uport.pop(obj)
+                    else: uport.pop(op[1], None)
+            elif k0 == "s":
+                if m == "connect":
+                    connects.append(_port(op[1]) if len(op) > 1 else None)
+                    est[obj] = False; epoch[obj] = epoch.get(obj, 0) + 1
+                elif m in ("write", "send", "write_loop"): tcp_noise[obj] = tcp_noise.get(obj, 0) + 1
+                elif m in ("close", "destroy", "open", "new"):
+                    if m != "new": tcp_noise[obj] = tcp_noise.get(obj, 0) + 1
+                    est[obj] = False; epoch[obj] = epoch.get(obj, 0) + 1
+                elif m == "move" and len(op) > 1:
+                    est[op[1]] = est.pop(obj, False); epoch[op[1]] = epoch.pop(obj, 0)
+                    tcp_noise[op[1]] = tcp_noise.pop(obj, 0)
+            if k0 == "a" and m in ("accept", "accept_ep") and len(op) > 1:
+                # accepting into a socket object ends whatever connection it was on
+                est[op[1]] = False; epoch[op[1]] = epoch.get(op[1], 0) + 1
         if tk[0] == "R":
             returned_quiescent = not stopped
+            if "throw" in tk: thrown = True
     if crashed: return fails
     for h, st in started.items():
         if st["hit"] and h not in done and returned_quiescent:
-            fails.append(("aborted_exactly_once", "%s (%s on %s) was outstanding when its object was cancelled/closed/destroyed/superseded and was never invoked" % (h, st["kind"], st["obj"])))
+            fails.append(("aborted_exactly_once", "%s (%s on %s) was outstanding when its object was cancelled/closed/destroyed/superseded and was never invoked" % (h, st["kind"], st["obj"]), st["obj"]))
     # none silently discarded: at quiescence an operation that never completed must still be waiting on a live object;
     # a destroyed object cannot be waiting
     destroyed = set()
@@ -93,5 +287,5 @@ def check(impl, scn=None):
     if returned_quiescent:
         for h, st in started.items():
             if h not in done and st["obj"] in destroyed and not st["hit"]:
-                fails.append(("none_discarded", "%s started on %s which was destroyed; the handler never ran" % (h, st["obj"])))
+                fails.append(("none_discarded", "%s started on %s which was destroyed; the handler never ran" % (h, st["obj"]), st["obj"]))
     return fails
